@@ -66,6 +66,10 @@ def defuse_xml(xml_source: Union[str, bytes]) -> Union[str, bytes]:
                 break
     except SAXParseException:
         pass  # the purpose is to defuse not to check xml source syntax
+    except (ValueError, LookupError) as err:
+        # e.g. a multi-byte or an unknown encoding in the XML declaration:
+        # a source that cannot be checked is not passed on
+        raise XMLResourceForbidden(f"the XML source cannot be checked: {err}") from None
     except OSError as err:
         raise ElementPathOSError(str(err))
 
